@@ -224,6 +224,14 @@ func (c *Ctx) Violation(key, caseID, what string, replay interface{}) {
 	emit(line{T: "viol", Key: key, Case: caseID, What: what, Replay: replay})
 }
 
+// Enough reports that this worker has already recorded plenty of violations: the remaining cases
+// would add nothing to the verdict (and a broken system under test tends to make them slow).
+func (c *Ctx) Enough() bool {
+	c.mu.Lock()
+	defer c.mu.Unlock()
+	return c.nviol >= 25
+}
+
 // Inconclusive records a trial that could not be judged.
 func (c *Ctx) Inconclusive(caseID, reason string) {
 	c.Count("inconclusive", 1)
